@@ -489,8 +489,14 @@ def oracle_C10(c, res, log, exc):
             if puts or status_of(res, i) != 'untouched':
                 return False
     if c.opts['noDeps']:
+        # "explicitly requested" is read by file (the weaker reading, DESIGN 4.6): every module held by a file that was
+        # fetched for a requested name counts as requested
+        allowed = set(c.req)
+        for i in c.req:
+            if c.par[i] in (3, 4):
+                allowed.add((i + 1) % c.M)
         for e in log:
-            if e[0] == 'gen' and e[2] not in c.req:
+            if e[0] == 'gen' and e[2] not in allowed:
                 return False
     # ... and a requested module that was parsed and is not reported up to date IS generated (also under noDeps, also when
     # it was requested under another spelling of its name)
@@ -640,6 +646,9 @@ def shards(tier):
     out.append(('borrow2', _v('bo1', 2) + _v('bo2', 2) + _v('s1', 2) + _v('gen', 2)
                 + ['noDeps', 'genTexts', 'ignoreErrors', 'req_1', 'imp_0_1', 'alias_0'], dict(M=2, nbo=2), Q,
                 '2 modules, 2 borrowers: every answer x lookup/codegen failures x noDeps/genTexts/ignoreErrors'))
+    out.append(('borrowfile2', _v('bo1', 2) + _v('s1', 2) + _v('par', 2) + ['req_1', 'ignoreErrors', 'noDeps'], dict(M=2, nbo=1), Q,
+                '2 modules, 1 borrower: lookup failures x files that hold one or two modules (a module that fails under its own name and is '
+                'then found inside the other module\'s file) x request set'))
     if tier == 'thorough':
         T = 1700
         for p0 in range(5):
@@ -679,7 +688,7 @@ def shards(tier):
 
 # quick shards are split on these variables (enumerated per process) so that all cores are used and the wall time drops
 SPLIT = {'graph2': ['ignoreErrors', 's1_0'], 'symwr2': ['ignoreErrors', 'req_1'], 'searchers2': ['noDeps', 'sr1_0'],
-         'borrow2': ['noDeps', 'ignoreErrors'], 'sources2': ['s1_0'], 'nowrite2': ['writeMibs']}
+         'borrow2': ['noDeps', 'ignoreErrors'], 'sources2': ['s1_0'], 'nowrite2': ['writeMibs'], 'borrowfile2': ['par_0', 'req_1']}
 
 
 def _values(var):
